@@ -261,6 +261,9 @@ def cliGate (leftover : Int) (st : State) : State × Nat :=
   if leftover ≠ 0 then (st, 2)
   else (finalizeOp st none, 0)
 
+/-- The exit status the operating system reports for `sys.exit(c)`: the low byte of `c`. -/
+def exitStatus (c : Nat) : Nat := c % 256
+
 /-- a whole run: the writers' deferred opens, then the gate on the counted warnings -/
 def cliRun (fs : FS) (opens : List OpenReq) (counter : List C08.Entry) (specs : List (List C08.Spec))
     (level : Nat) : State × Nat :=
